@@ -175,11 +175,13 @@ fn run_c11(t: &mut Tape, _tier: Tier) -> RunOut {
         headers: true,
     };
     mix.baseline = true;
+    mix.zero_offset = true;
     mix.prov_pending = 0;
     mix.sign.date_noise = 0;
     let mut j = |cx: &DeliveryCtx, out: &mut RunOut| {
         tamper_probes(cx, out);
         judge_agreement(cx, out, "C11", "signed-headers-bound-unsigned-without-influence");
+        judge_isolated(cx, out, "C11", "signed-headers-bound-unsigned-without-influence");
         judge_canonical(cx, out, &["C11"]);
     };
     run_world(t, &mix, &mut j)
@@ -204,6 +206,7 @@ fn run_c12(t: &mut Tape, _tier: Tier) -> RunOut {
         headers: false,
     };
     mix.baseline = true;
+    mix.zero_offset = true;
     mix.prov_pending = 0;
     mix.sign.date_noise = 0;
     let mut j = |cx: &DeliveryCtx, out: &mut RunOut| judge_c12(cx, out);
